@@ -175,8 +175,12 @@ func checkC09(rc *Run) error {
 	if shard < 0 {
 		shard = -shard
 	}
-	maxLen := rc.Pick(4, 5)
-	cfg := fmt.Sprintf("CONSTANTS\n MaxLen = %d\n NShards = %d\n Shard = %d\nINIT Init\nNEXT Next\nINVARIANTS PairLaw ParenLaw RejectLaw ArityLaw\nCHECK_DEADLOCK FALSE\n", maxLen, nsh, shard)
+	maxLen := 4 // every sequence up to length 4 over 24 tokens; thorough adds every sequence of length 5 over the 13 core tokens (Deep)
+	deep := "FALSE"
+	if rc.Thorough() {
+		deep = "TRUE"
+	}
+	cfg := fmt.Sprintf("CONSTANTS\n MaxLen = %d\n Deep = "+deep+"\n NShards = %d\n Shard = %d\nINIT Init\nNEXT Next\nINVARIANTS PairLaw ParenLaw RejectLaw ArityLaw\nCHECK_DEADLOCK FALSE\n", maxLen, nsh, shard)
 
 	type vec struct {
 		K    string
